@@ -66,6 +66,7 @@ type tr struct {
 	fset   *token.FileSet
 	ty     map[string]string // lean var name -> type
 	rename map[string]string
+	big    map[string]bool // lean var name -> holds an sdkmath.Int / *big.Int / time.Time (see isBig)
 }
 
 var structs = map[string]map[string]fieldInfo{
@@ -90,10 +91,11 @@ var methods = map[string]map[string]callRule{
 		"LTE": {"(decide ($r ≤ $1))", "Bool"}, "Equal": {"($r == $1)", "Bool"}, "BigInt": {"$r", "Int"}, "IsNil": {"false", "Bool"},
 		"Cmp": {"(if $r < $1 then (-1 : Int) else if $r == $1 then 0 else 1)", "Int"},
 		"Sign": {"(if $r < 0 then (-1 : Int) else if $r == 0 then 0 else 1)", "Int"},
-		"Int64": {"$r", "Int"}, "Uint64": {"$r", "Int"}, "IsInt64": {"true", "Bool"},
+		"Int64": {"$r", "Int"}, "Uint64": {"$r", "Int"},
+		"IsInt64": {"(decide ((-9223372036854775808 : Int) ≤ $r ∧ $r ≤ (9223372036854775807 : Int)))", "Bool"},
 		// time.Time / Duration share the Int representation
 		"Before": {"(decide ($r < $1))", "Bool"}, "After": {"(decide ($1 < $r))", "Bool"},
-		"Unix": {"(Int.tdiv $r 1000000000)", "Int"},
+		"Unix": {"($r / 1000000000)", "Int"}, // floor: Time.Unix() of a pre-1970 instant rounds down (Int `/` is Euclidean)
 	},
 	"Dec": {
 		"Add": {"(ExoVerif.Dec.add $r $1)", "Dec"}, "Sub": {"(ExoVerif.Dec.sub $r $1)", "Dec"},
@@ -259,6 +261,13 @@ func (t *tr) expr(e ast.Expr) (string, string) {
 		if ta != tb {
 			failf("binary %s on %s and %s (%s)", x.Op, ta, tb, exprText(x.X))
 		}
+		if ta == "Int" && (x.Op == token.EQL || x.Op == token.NEQ) && (t.isBig(x.X) || t.isBig(x.Y)) {
+			failf("%s on sdkmath.Int / *big.Int / time.Time values compares pointers; use Equal / Cmp", x.Op)
+		}
+		if ta == "Dec" && (x.Op == token.EQL || x.Op == token.NEQ) {
+			// Go compares the *big.Int pointers of two LegacyDec structs, not their values
+			failf("%s on LegacyDec compares pointers; use Equal", x.Op)
+		}
 		switch x.Op {
 		case token.LAND:
 			return "(" + a + " && " + b + ")", "Bool"
@@ -332,12 +341,14 @@ func (t *tr) call(c *ast.CallExpr) (string, string) {
 		return subst(r.tmpl, "", argsOf()), r.ty
 	}
 	if r, ok := funcs[txt]; ok {
+		checkArity(txt, r.tmpl, len(c.Args))
 		return subst(r.tmpl, "", argsOf()), r.ty
 	}
 	if sel, ok := c.Fun.(*ast.SelectorExpr); ok {
 		recv, rty := t.expr(sel.X)
 		if ms, ok := methods[rty]; ok {
 			if r, ok := ms[sel.Sel.Name]; ok {
+				checkArity(rty+"."+sel.Sel.Name, r.tmpl, len(c.Args))
 				return subst(r.tmpl, recv, argsOf()), r.ty
 			}
 		}
@@ -345,6 +356,20 @@ func (t *tr) call(c *ast.CallExpr) (string, string) {
 	}
 	failf("unknown function %s", txt)
 	return "", ""
+}
+
+// checkArity: a table template mentions exactly its arguments $1..$n; a call with another number of arguments
+// is a different Go function of the same name (x.Add(a) of sdkmath.Int vs z.Add(x, y) of *big.Int).
+func checkArity(name, tmpl string, got int) {
+	want := 0
+	for i := 1; i <= 9; i++ {
+		if strings.Contains(tmpl, "$"+strconv.Itoa(i)) {
+			want = i
+		}
+	}
+	if want != got {
+		failf("%s takes %d argument(s) in the whitelist, called with %d", name, want, got)
+	}
 }
 
 func (t *tr) isSkip(txt string) bool {
@@ -384,7 +409,72 @@ func (t *tr) clone() *tr {
 	for k, v := range t.ty {
 		n.ty[k] = v
 	}
+	if t.big != nil {
+		n.big = map[string]bool{}
+		for k, v := range t.big {
+			n.big[k] = v
+		}
+	}
 	return n
+}
+
+// isBigType: Go types that the translator models as Int but whose values are structs / pointers around a
+// *big.Int (or a time.Time): Go's `==` on them compares pointers, not numbers.
+func isBigType(e ast.Expr) bool {
+	if st, ok := e.(*ast.StarExpr); ok {
+		e = st.X
+	}
+	if sel, ok := e.(*ast.SelectorExpr); ok {
+		switch exprText(sel) {
+		case "sdkmath.Int", "math.Int", "sdk.Int", "big.Int", "time.Time":
+			return true
+		}
+	}
+	return false
+}
+
+// isBig: is this Int-typed expression syntactically known to be such a value (a variable declared or assigned
+// as one, a constructor of the math packages, an arithmetic method result)?
+func (t *tr) isBig(e ast.Expr) bool {
+	switch x := e.(type) {
+	case *ast.ParenExpr:
+		return t.isBig(x.X)
+	case *ast.StarExpr:
+		return t.isBig(x.X)
+	case *ast.UnaryExpr:
+		return x.Op == token.AND && t.isBig(x.X)
+	case *ast.Ident:
+		return t.big[t.leanVar(x.Name)]
+	case *ast.CallExpr:
+		txt := exprText(x.Fun)
+		if r, ok := funcs[txt]; ok && r.ty == "Int" {
+			for _, p := range []string{"sdkmath.", "math.", "sdk.", "big."} {
+				if strings.HasPrefix(txt, p) {
+					return true
+				}
+			}
+			return false
+		}
+		if sel, ok := x.Fun.(*ast.SelectorExpr); ok {
+			switch sel.Sel.Name {
+			case "Add", "Sub", "Mul", "Quo", "Div", "Neg", "Abs", "BigInt", "TruncateInt", "RoundInt", "UTC":
+				return true
+			}
+		}
+	}
+	return false
+}
+
+func (t *tr) setBig(lhs ast.Expr, big bool) {
+	if st, ok := lhs.(*ast.StarExpr); ok {
+		lhs = st.X
+	}
+	if id, ok := lhs.(*ast.Ident); ok && id.Name != "_" {
+		if t.big == nil {
+			t.big = map[string]bool{}
+		}
+		t.big[t.leanVar(id.Name)] = big
+	}
 }
 
 func ind(n int) string { return strings.Repeat("  ", n) }
@@ -415,12 +505,14 @@ func (t *tr) stmts(list []ast.Stmt, rest [][]ast.Stmt, d int) string {
 			for i, n := range vs.Names {
 				if i < len(vs.Values) {
 					v, vty := t.expr(vs.Values[i])
+					t.setBig(n, (vs.Type != nil && isBigType(vs.Type)) || t.isBig(vs.Values[i]))
 					t.ty[t.leanVar(n.Name)] = vty
 					lets += ind(d) + "let " + t.leanVar(n.Name) + " := " + v + "\n"
 				} else {
 					if ty == "" {
 						failf("var %s: unsupported type", n.Name)
 					}
+					t.setBig(n, isBigType(vs.Type))
 					zero := map[string]string{"Int": "(0 : Int)", "Dec": "ExoVerif.Dec.zero", "Bool": "false", "String": "\"\""}[ty]
 					t.ty[t.leanVar(n.Name)] = ty
 					lets += ind(d) + "let " + t.leanVar(n.Name) + " : " + leanTy(ty) + " := " + zero + "\n"
@@ -594,9 +686,16 @@ func (t *tr) assign(x *ast.AssignStmt, d int) string {
 	if len(x.Lhs) != len(x.Rhs) {
 		failf("multi-value assignment")
 	}
+	if len(x.Lhs) != 1 {
+		// Go evaluates every right-hand side before it assigns (a, b = b, a swaps); sequential lets would not
+		failf("parallel assignment")
+	}
 	out := ""
 	for i := range x.Lhs {
 		v, vty := t.expr(x.Rhs[i])
+		if x.Tok == token.DEFINE || x.Tok == token.ASSIGN {
+			t.setBig(x.Lhs[i], vty == "Int" && t.isBig(x.Rhs[i]))
+		}
 		switch x.Tok {
 		case token.DEFINE, token.ASSIGN:
 		case token.ADD_ASSIGN, token.SUB_ASSIGN, token.MUL_ASSIGN:
@@ -671,6 +770,75 @@ func (t *tr) ret(r *ast.ReturnStmt) string {
 	return ""
 }
 
+// checkNoShadowing rejects a `:=` / `var` in a nested block that re-declares a name of an enclosing scope.
+// The continuation-passing translation turns every declaration into a `let` that stays visible in the
+// duplicated continuation, which is only right when the name is new (Go would restore the outer variable at
+// the end of the block).
+func checkNoShadowing(body *ast.BlockStmt, outer []string) {
+	type scope map[string]bool
+	var walk func(list []ast.Stmt, scopes []scope)
+	declare := func(name string, scopes []scope) {
+		if name == "_" {
+			return
+		}
+		for _, sc := range scopes[:len(scopes)-1] {
+			if sc[name] {
+				failf("declaration of %s shadows a variable of an enclosing scope", name)
+			}
+		}
+		scopes[len(scopes)-1][name] = true
+	}
+	var stmt func(s ast.Stmt, scopes []scope)
+	stmt = func(s ast.Stmt, scopes []scope) {
+		switch x := s.(type) {
+		case *ast.AssignStmt:
+			if x.Tok == token.DEFINE {
+				for _, l := range x.Lhs {
+					if id, ok := l.(*ast.Ident); ok {
+						declare(id.Name, scopes)
+					}
+				}
+			}
+		case *ast.DeclStmt:
+			if gd, ok := x.Decl.(*ast.GenDecl); ok {
+				for _, sp := range gd.Specs {
+					if vs, ok := sp.(*ast.ValueSpec); ok {
+						for _, n := range vs.Names {
+							declare(n.Name, scopes)
+						}
+					}
+				}
+			}
+		case *ast.BlockStmt:
+			walk(x.List, append(scopes, scope{}))
+		case *ast.IfStmt:
+			inner := append(scopes, scope{})
+			if x.Init != nil {
+				stmt(x.Init, inner)
+			}
+			walk(x.Body.List, append(inner, scope{}))
+			switch e := x.Else.(type) {
+			case *ast.BlockStmt:
+				walk(e.List, append(inner, scope{}))
+			case *ast.IfStmt:
+				stmt(e, inner)
+			}
+		}
+	}
+	walk = func(list []ast.Stmt, scopes []scope) {
+		for _, s := range list {
+			stmt(s, scopes)
+		}
+	}
+	top := scope{}
+	for _, n := range outer {
+		top[n] = true
+	}
+	// the function body is its own block: a top-level `x := …` of a parameter name does not compile in Go
+	// (no new variable), so parameters and top-level locals share one scope here
+	walk(body.List, []scope{top})
+}
+
 func findFunc(f *ast.File, name string) *ast.FuncDecl {
 	recv, fn := "", name
 	if i := strings.IndexByte(name, '.'); i >= 0 {
@@ -716,6 +884,7 @@ func Translate(repo string, k *Kernel) (out string, err error) {
 		return "", fmt.Errorf("kernel %s: function %s not found in %s", k.Name, k.Func, k.File)
 	}
 	body := fd.Body
+	var closureParams []string
 	if k.Closure {
 		var lit *ast.FuncLit
 		ast.Inspect(fd.Body, func(n ast.Node) bool {
@@ -729,7 +898,22 @@ func Translate(repo string, k *Kernel) (out string, err error) {
 			return "", fmt.Errorf("kernel %s: no closure in %s", k.Name, k.Func)
 		}
 		body = lit.Body
+		for _, p := range lit.Type.Params.List {
+			for _, n := range p.Names {
+				closureParams = append(closureParams, n.Name)
+			}
+		}
 	}
+	outer := closureParams
+	for g := range k.Vars {
+		outer = append(outer, g)
+	}
+	for _, p := range fd.Type.Params.List {
+		for _, n := range p.Names {
+			outer = append(outer, n.Name)
+		}
+	}
+	checkNoShadowing(body, outer)
 	t := &tr{k: k, fset: fset, ty: map[string]string{}, rename: k.Rename}
 	if t.rename == nil {
 		t.rename = map[string]string{}
@@ -742,6 +926,7 @@ func Translate(repo string, k *Kernel) (out string, err error) {
 		for _, p := range fd.Type.Params.List {
 			lt := goTypeToLean(p.Type)
 			for _, n := range p.Names {
+				t.setBig(n, isBigType(p.Type))
 				if _, ok := t.ty[t.leanVar(n.Name)]; ok {
 					continue
 				}
